@@ -52,6 +52,29 @@ def _tokens(ctx, R):
     return binary, unary
 
 
+def _expr_fn(ctx, R):
+    """Generator.exitExpression with its three role-carrying locals given canonical names: `op` (bound from tree.operator),
+    `n_operands` (len(tree.operands)) and `src` (what is stored in self.src[tree])"""
+    from ..pyutil import renamed_copy
+    fn = ctx.func(GEN, "Generator.exitExpression", R)
+    tree = fn.args.args[1].arg
+    roles = {}
+    for n in walk_local(fn):
+        if isinstance(n, ast.Assign) and len(n.targets) == 1 and isinstance(n.targets[0], ast.Name):
+            v = norm(n.value)
+            if v in ("%s.operator" % tree, "%s.operator.name" % tree):
+                roles[n.targets[0].id] = "op"
+            elif v == "len(%s.operands)" % tree:
+                roles[n.targets[0].id] = "n_operands"
+        if isinstance(n, ast.Assign) and norm(n.targets[0]) == "self.src[%s]" % tree and isinstance(n.value, ast.Name):
+            roles[n.value.id] = "src"
+    if sorted(set(roles.values())) != ["n_operands", "op", "src"]:
+        raise MechanismMissing(R, "exitExpression: operator / operand-count / result variables not found (%s)" % roles)
+    if tree != "tree":
+        roles[tree] = "tree"
+    return renamed_copy(fn, roles)
+
+
 def _normaliser(fn):
     """The generator's own op normalisation, read from the statements before the dispatch chain:
     `if op == X: op = Y` and `if op.startswith(P): op = op[k:]`."""
@@ -125,7 +148,7 @@ def _holds(test, op, n, op_map) -> bool:
 )
 def r11_1(ctx, rep):
     R = "R11.1"
-    fn = ctx.func(GEN, "Generator.exitExpression", R)
+    fn = _expr_fn(ctx, R)
     op_map = _op_map(ctx, R)
     binary, unary = _tokens(ctx, R)
     normalise, steps = _normaliser(fn)
@@ -160,7 +183,7 @@ def r11_2(ctx, rep):
         mx = set(dir(casadi.MX))
     except Exception as e:  # noqa: BLE001
         raise AnalysisError(R, "cannot import casadi to resolve method names: %s" % e)
-    fn = ctx.func(GEN, "Generator.exitExpression", R)
+    fn = _expr_fn(ctx, R)
     binary, unary = _tokens(ctx, R)
     normalise, _ = _normaliser(fn)
     producible = {normalise(t) for t in binary | unary}
@@ -188,7 +211,7 @@ def r11_3(ctx, rep):
             rep.ob(R, GEN + ":OP_MAP", "meaning of %r" % k, False, "no specification for key %r: review and add it to the checker's table" % k)
             continue
         rep.ob(R, GEN + ":OP_MAP", "meaning of %r" % k, v in MEANING[k], "token %r means %s, the table maps it to %r" % (k, sorted(MEANING[k]), v))
-    fn = ctx.func(GEN, "Generator.exitExpression", R)
+    fn = _expr_fn(ctx, R)
     chain = _dispatch(fn)
     if chain is None:
         raise MechanismMissing(R, "dispatch chain not found")
@@ -205,6 +228,12 @@ def r11_3(ctx, rep):
                 return st.value
         return None
 
+    from ..pyutil import inlined as _inl
+
+    def src_value(body, _sv=src_value):  # noqa: F811  temporaries of the branch are inlined
+        v_ = _sv(body)
+        return _inl(v_, body or [], keep={"src"}) if v_ is not None else None
+
     v = src_value(branch("-", 1))
     rep.ob(R, SITE, "unary minus", isinstance(v, ast.UnaryOp) and isinstance(v.op, ast.USub) and norm(v.operand) == "self.get_mx(tree.operands[0])",
            "-x must translate to the negation of operand 0")
@@ -214,13 +243,15 @@ def r11_3(ctx, rep):
     ok = isinstance(v, ast.Call) and call_name(v) in ("ca.if_else", "if_else") and len(v.args) >= 3 \
         and norm(v.args[0]) == "self.get_mx(tree.operands[0])" and literal(v.args[1]) == 0 and literal(v.args[2]) == 1
     rep.ob(R, SITE, "not", ok, "`not x` must translate to if_else(x, 0, 1)")
+    from ..pyutil import inlined
     b = branch("mtimes", 2)
     ok = False
     if b:
-        first = [norm(st) for st in b if isinstance(st, ast.Assign)]
-        loop = [st for st in b if isinstance(st, ast.For)]
-        ok = "src = self.get_mx(tree.operands[0])" in first and bool(loop) and norm(loop[0].iter) == "tree.operands[1:]" \
-            and any(norm(s) == "src = ca.mtimes(src, self.get_mx(%s))" % loop[0].target.id for s in loop[0].body)
+        first = [st for st in b if isinstance(st, ast.Assign) and is_name(st.targets[0], "src")]
+        loop = [st for st in b if isinstance(st, ast.For) and isinstance(st.target, ast.Name)]
+        ok = bool(first) and norm(first[0].value) == "self.get_mx(tree.operands[0])" and bool(loop) and norm(loop[0].iter) == "tree.operands[1:]" \
+            and any(isinstance(s, ast.Assign) and is_name(s.targets[0], "src") and norm(inlined(s.value, loop[0].body, keep={"src", loop[0].target.id})) == "ca.mtimes(src, self.get_mx(%s))" % loop[0].target.id
+                    for s in loop[0].body)
     rep.ob(R, SITE, "matrix product", ok, "`a * b` must translate to ca.mtimes(a, b) in operand order (matrix product is not commutative)")
     # the table-driven branch applies the method of the LEFT operand to the right one
     b = None
@@ -229,9 +260,9 @@ def r11_3(ctx, rep):
             b = body
     ok = False
     if b:
-        t = [norm(s) for s in b]
-        ok = "lhs = ca.MX(self.get_mx(tree.operands[0]))" in t and "rhs = ca.MX(self.get_mx(tree.operands[1]))" in t \
-            and "lhs_op = getattr(lhs, OP_MAP[op])" in t and "src = lhs_op(rhs)" in t
+        v = src_value(b)
+        t = norm(inlined(v, b, keep={"src"})) if v is not None else ""
+        ok = t == "getattr(ca.MX(self.get_mx(tree.operands[0])), OP_MAP[op])(ca.MX(self.get_mx(tree.operands[1])))"
     rep.ob(R, SITE, "binary table application", ok, "binary operators must be applied as getattr(<operand 0>, OP_MAP[op])(<operand 1>)")
 
 
@@ -348,7 +379,8 @@ def r11_5(ctx, rep):
     site = GEN + ":Generator.exitForStatement"
     found = False
     for node in ast.walk(fn):
-        if isinstance(node, ast.Call) and is_name(node.func, "Assignment") and len(node.args) == 2 and "res[" in norm(node.args[1]):
+        if isinstance(node, ast.Call) and is_name(node.func, "Assignment") and len(node.args) == 2 and any(
+                isinstance(x, ast.Subscript) and isinstance(x.slice, ast.Tuple) and len(x.slice.elts) == 2 for x in ast.walk(node.args[1])):
             found = True
             # collect the enclosing loops, outermost first
             order = []
@@ -361,15 +393,50 @@ def r11_5(ctx, rep):
                     chain.extend(reversed([norm(g.iter) for g in p.generators]))
                 p = getattr(p, "_parent", None)
             order = list(reversed(chain))
-            it = [i for i, x in enumerate(order) if "f.values" in x]
-            st = [i for i, x in enumerate(order) if "variables" in x]
+            it = [i for i, x in enumerate(order) if x.startswith("range(len(") and x.endswith(".values))")]
+            st = [i for i, x in enumerate(order) if x.startswith("enumerate(")]
             ok = bool(it) and bool(st) and it[0] < st[0]
             rep.ob(R, site, "assignment list order", ok,
-                   "loops around Assignment(...) are nested %s: the outer loop must run over the iterations (f.values) and the inner one "
+                   "loops around Assignment(...) are nested %s: the outer loop must run over the iterations (range(len(<loop>.values))) and the inner one "
                    "over the body's statements; otherwise a statement that reads a variable assigned earlier in the same body sees the "
                    "value of the last iteration" % order)
     if not found:
         raise MechanismMissing(R, "construction of the assignment list not found in exitForStatement")
+
+
+@SPEC.rule(
+    "R11.6",
+    "range expressions: `a:b` is Slice(start=a, stop=b, step=1) and `a:s:b` is Slice(start=a, stop=b, step=s) — in "
+    "Modelica the MIDDLE expression of a three-part range is the step (decided by interpreting "
+    "ASTListener.exitSimple_expression on symbolic children)",
+)
+def r11_6(ctx, rep):
+    from ..symexec import Interp, Obj, SymExecError
+    R = "R11.6"
+    PARSER = "src/pymoca/parser.py"
+    fn = ctx.func(PARSER, "ASTListener.exitSimple_expression", R)
+    site = PARSER + ":ASTListener.exitSimple_expression"
+    cparam = fn.args.args[1].arg
+    for n in (2, 3):
+        kids = ["e%d" % i for i in range(n)]
+        table = {k: k.upper() for k in kids}
+        node = Obj()
+        calls_ = {
+            cparam + ".expr": lambda *a, _k=kids: (_k if not a else _k[a[0]]),
+            "ast.Slice": lambda **kw: ("Slice", kw.get("start"), kw.get("stop"), kw.get("step")),
+            "ast.Primary": lambda **kw: ("Primary", kw.get("value")),
+        }
+        it = Interp(calls_, {cparam: node, "self": Obj(ast=table), "self.ast": table})
+        got, why = None, ""
+        try:
+            it.run(fn.body)
+            got = table.get(node)
+        except SymExecError as e:
+            why = "cannot interpret the handler: %s" % e
+        want = ("Slice", "E0", "E%d" % (n - 1), "E1" if n == 3 else ("Primary", 1))
+        rep.ob(R, site, "%d-part range" % n, got == want,
+               "%s must become Slice(start=%s, stop=%s, step=%s); the handler builds %s %s — `1:2:5` would run 1, 6 instead of 1, 3, 5"
+               % (":".join("e%d" % i for i in range(n)), want[1], want[2], want[3], got, why))
 
 
 # -- seeded variants ---------------------------------------------------------
@@ -452,3 +519,19 @@ def _m7(mod):
         return False
 
     return mod if replace_in_func(mod, "Generator.exitForStatement", edit) else None
+
+
+@SPEC.mutant("three-part range stored as start:stop:step", "src/pymoca/parser.py", "R11.6", "3-part range")
+def _m_range(mod):
+    def edit(fn):
+        done = 0
+        for n in ast.walk(fn):
+            if isinstance(n, ast.Subscript) and norm(n.value).endswith(".expr()") and isinstance(n.slice, ast.Constant) and n.slice.value == 1 and not done:
+                n.slice = ast.Constant(value=2)
+                done += 1
+            elif isinstance(n, ast.Subscript) and norm(n.value).endswith(".expr()") and isinstance(n.slice, ast.UnaryOp):
+                n.slice = ast.Constant(value=1)
+                done += 1
+        return done == 2
+
+    return mod if replace_in_func(mod, "ASTListener.exitSimple_expression", edit) else None
